@@ -48,6 +48,7 @@ func isPrefixOfRepeat(p, token string) bool {
 }
 
 func c15(r *R) {
+	c12ReverseStr(r) // "ReverseStr reverses runes" is part of this property's statement too
 	maxRunes := 4
 	alpha := []string{"a", "B", "é", "-", "*"}
 	if thorough {
